@@ -1687,3 +1687,29 @@ Proof.
   - inversion Hnd; subst. apply IH. assumption.
 Qed.
 
+
+(* ------------------------------------------------------------------ *)
+(* snapshots: what is restored is what was saved                         *)
+(* ------------------------------------------------------------------ *)
+Lemma sop_step_saved st o st' : sop_step st o = Ok st' -> exists ext, fst st' = fst st ++ ext.
+Proof.
+  destruct st as [saved s]. destruct o; cbn [sop_step]; try (intro H; inversion H; subst; exists []; cbn; rewrite app_nil_r; reflexivity).
+  - destruct (register_pending s t r); cbn; [|discriminate]. intro H. inversion H. exists []. cbn. rewrite app_nil_r. reflexivity.
+  - destruct (remove_case s t r); cbn; [|discriminate]. intro H. inversion H. exists []. cbn. rewrite app_nil_r. reflexivity.
+  - intro H. inversion H; subst. exists [s]. reflexivity.
+Qed.
+Lemma sop_run_saved ops : forall st st', sop_run st ops = Ok st' -> exists ext, fst st' = fst st ++ ext.
+Proof.
+  induction ops as [|o ops IH]; intros st st'; cbn [sop_run]; [intro H; inversion H; exists []; rewrite app_nil_r; reflexivity|].
+  destruct (sop_step st o) as [st1|] eqn:E; cbn [bind]; [|discriminate]. intro H.
+  destruct (sop_step_saved _ _ _ E) as [e1 H1]. destruct (IH _ _ H) as [e2 H2]. exists (e1 ++ e2). rewrite H2, H1, app_assoc. reflexivity.
+Qed.
+(* whatever happens to the live searcher (and to clones restored earlier) after a snapshot was taken, a later restore
+   of that snapshot yields exactly the state at the time of the snapshot; it can be restored any number of times *)
+Lemma restore_is_snapshot saved s ops saved' s' :
+  sop_run (saved ++ [s], s) ops = Ok (saved', s') ->
+  sop_step (saved', s') (ORestore (length saved)) = Ok (saved', s).
+Proof.
+  intro H. destruct (sop_run_saved _ _ _ H) as [ext E]. cbn [fst] in E. cbn [sop_step]. rewrite E.
+  rewrite <- app_assoc. rewrite app_nth2 by lia. rewrite Nat.sub_diag. reflexivity.
+Qed.
